@@ -225,7 +225,7 @@ func runReplay(r *OblResult, cs *Contracts) *ReplayOutcome {
 		switch t := p.Type().Underlying().(type) {
 		case *types.Basic:
 			src := "p/" + name
-			if plan.Kind == "step" {
+			if plan.Kind == "step" || plan.Kind == "inv" {
 				for phi, par := range plan.PhiParam {
 					if par == name {
 						src = "h/" + phi
@@ -267,7 +267,7 @@ func runReplay(r *OblResult, cs *Contracts) *ReplayOutcome {
 				return out
 			}
 			var cells []float64
-			if plan.Kind == "step" {
+			if plan.Kind == "step" || plan.Kind == "inv" {
 				mv := model["at/"+name]
 				if mv == nil {
 					mv = new(big.Rat)
@@ -514,7 +514,23 @@ func runReplay(r *OblResult, cs *Contracts) *ReplayOutcome {
 		out.Reason = "no clause to evaluate"
 		return out
 	}
-	if plan.Kind == "step" {
+	if plan.Kind == "inv" {
+		// the invariant is evaluated on the values after one iteration from the
+		// model's loop-head state: carried names denote the returned states
+		if plan.IndexName != "" {
+			env.names[plan.IndexName] = int64(1)
+		}
+		for phi, ri := range plan.PhiResult {
+			if v := resVal(ri); v != nil {
+				env.names[phi] = v
+			}
+		}
+		for phi := range plan.PhiParam {
+			if _, ok := plan.PhiResult[phi]; !ok {
+				delete(env.names, phi)
+			}
+		}
+	} else if plan.Kind == "step" {
 		env.pre = map[string]interface{}{}
 		env.post = map[string]interface{}{}
 		if plan.IndexName != "" {
